@@ -194,6 +194,7 @@ class _Expr(ast.NodeTransformer):
 class Twin:
     def __init__(self):
         self.ex = _Expr()
+        self.tmp = 0
 
     def expr(self, e):
         return self.ex.visit(e) if e is not None else None
@@ -226,6 +227,36 @@ class Twin:
                 t = s.targets[0]
                 s.value = _call(F_NAME, "b", ast.Constant(f"{t.value.id}[{t.slice.value!r}]"), s.value)
                 return [s]
+            if any(isinstance(t, (ast.Tuple, ast.List)) for t in s.targets):
+                # Python evaluates the value once and binds the targets (and the leaves of each target) strictly
+                # left to right -- the same name may be bound several times by one statement: unpack into fresh
+                # temporaries of the same shape, then bind leaf by leaf.
+                self.tmp += 1
+                tv = f"_pv_v{self.tmp}"
+                out = [ast.Assign(targets=[ast.Name(id=tv, ctx=ast.Store())], value=s.value)]
+                for t in s.targets:
+                    leaves = []
+
+                    def clone(x):
+                        if isinstance(x, (ast.Tuple, ast.List)):
+                            return type(x)(elts=[clone(e) for e in x.elts], ctx=ast.Store())
+                        if isinstance(x, ast.Starred):
+                            return ast.Starred(value=clone(x.value), ctx=ast.Store())
+                        self.tmp += 1
+                        n = f"_pv_u{self.tmp}"
+                        leaves.append((n, x))
+                        return ast.Name(id=n, ctx=ast.Store())
+
+                    shape = clone(t)
+                    out.append(ast.Assign(targets=[shape], value=ast.Name(id=tv, ctx=ast.Load())))
+                    for n, leaf in leaves:
+                        src = ast.Name(id=n, ctx=ast.Load())
+                        if isinstance(leaf, ast.Name):
+                            out.append(ast.Assign(targets=[ast.Name(id=leaf.id, ctx=ast.Store())],
+                                                  value=_call(F_NAME, "b", ast.Constant(leaf.id), src)))
+                        else:
+                            out.append(ast.Assign(targets=[leaf], value=src))
+                return out
             names = []
             for t in s.targets:
                 names += _names_in_target(t)
